@@ -17,7 +17,7 @@ def name(*labels):
 
 
 def hdr(idv, flags, qd, an, ns, ar):
-    return [idv >> 8, idv & 255, flags >> 8, flags & 255, 0, qd, 0, an, 0, ns, 0, ar]
+    return [idv >> 8, idv & 255, flags >> 8, flags & 255, qd >> 8, qd & 255, an >> 8, an & 255, ns >> 8, ns & 255, ar >> 8, ar & 255]
 
 
 def rr(owner, ty, ttl, rdata, cls=1):
@@ -263,6 +263,15 @@ def histories(seed, tier, extra_packets=()):
             out.append(scen(b, [{"op": "recompute"}, {"op": "read_question"}, cursor_op(sec, False, 0, [("set_raw_name", nm), ("next", [])]), {"op": "read_question"}]))
             out.append(scen(b, [{"op": "read_question"}, cursor_op(sec, False, 0, [("uncompress", []), ("set_raw_name", nm)]), {"op": "read_question"},
                                 {"op": "rename", "target": name("EX"), "source": name("ex"), "suffix": True}, {"op": "read_question"}]))
+    # a wide packet: 300 answers (indices and counts wider than a byte), edits at positions 254..257 and 299
+    wq = name("w", "ex") + [0, 1, 0, 1]
+    wrecs = []
+    for i in range(300):
+        wrecs += rr(ptr(12) if i % 2 else [1, 97 + i % 26] + ptr(12), 1, 2000 + i, [10, 2, i >> 8, i & 255])
+    wide = hdr(12, 0x8180, 1, 300, 0, 1) + wq + wrecs + opt([(10, [5])])
+    for adv in (254, 255, 256, 257, 299):
+        out.append(scen(wide, [cursor_op("AN", False, adv, [("set_raw_name", name("longer", "name", "here")), ("next", []), ("delete", [])]), {"op": "read_question"}]))
+        out.append(scen(wide, [cursor_op("AN", False, adv, [("delete", []), ("next", []), ("set_raw_name", name("a"))]), op_insert("AN", 0)]))
     # size limit: fill up with big records from every starting size
     big = [i for i, (t, r) in enumerate(record_menu()) if t.startswith("big.")][0]
     for b in bases[:3]:
@@ -346,6 +355,18 @@ def walks(tier):
                 prelude = ["recompute", "read_question"] if k % 2 else []
                 out.append(json.dumps({"do": "walk", "pkt": pkt, "sec": sec, "incl": incl, "twice": True, "del_q": False, "prelude": prelude,
                                        "del": [ids[i] for i in D], "max_yields": (n + 2) * (n + 2)}, separators=(",", ":")))
+    # wide sections: 300 records (counters wider than a byte), compressed owners, a few deletion patterns
+    for sec in ("AN", "AR"):
+        q = name("w", "ex") + [0, 1, 0, 1]
+        recs, ids = [], []
+        for i in range(300):
+            ttl = 1000 + i
+            recs += rr(ptr(12) if i % 2 else [1, 97 + i % 26] + ptr(12), 1, ttl, [10, 1, i >> 8, i & 255])
+            ids.append(list(ttl.to_bytes(4, "big")))
+        pkt = hdr(9, 0x8180, 1, 300 if sec == "AN" else 0, 0, 300 if sec == "AR" else 0) + q + recs
+        for D in ([0], [299], [254, 255, 256], list(range(0, 300, 50)), [255], [256, 257]):
+            out.append(json.dumps({"do": "walk", "pkt": pkt, "sec": sec, "incl": sec == "AR", "twice": True, "del_q": False, "prelude": [],
+                                   "del": [ids[i] for i in D], "max_yields": 2000}, separators=(",", ":")))
     # the question section: delete it or not; compressed owners point at it
     for b in base_packets()[:6]:
         for dq in (False, True):
